@@ -36,13 +36,13 @@ theorem loop_at (u0 : σ) (v0 : V) (s : Nat) (h : Reaches I o t u0 v0 s) :
 
 /-- Pre-existing non-finite check values under `errors='raise'` are rejected before any pass or hook runs;
     with `offset = 0` the world is unchanged. -/
-theorem preexisting_nonfinite_rejected (hacc : Accepted o n t) (he : o.errors = .raise)
+theorem preexisting_nonfinite_rejected (hacc : Accepted I o n t) (he : o.errors = .raise)
     (hnf : I.allFinite (I.check (seed I o t w.user) t) = false) :
     solveT I o n t w = (withUser w (seed I o t w.user), .solutionError false) := by
   rw [solveT_accepted I o n t w hacc]
   simp [solveCore, he, hnf]
 
-theorem preexisting_nonfinite_unchanged (hacc : Accepted o n t) (he : o.errors = .raise) (h0 : o.offset = 0)
+theorem preexisting_nonfinite_unchanged (hacc : Accepted I o n t) (he : o.errors = .raise) (h0 : o.offset = 0)
     (hnf : I.allFinite (I.check w.user t) = false) :
     solveT I o n t w = (w, .solutionError false) := by
   have hs : seed I o t w.user = w.user := by simp [seed, h0]
@@ -51,7 +51,7 @@ theorem preexisting_nonfinite_unchanged (hacc : Accepted o n t) (he : o.errors =
 
 /-- `errors='raise'`: the first pass `s` that turns a finite held vector into a non-finite one gives status 'E',
     `iterations[t] = s` and an (unchained) SolutionError. -/
-theorem policy_raise (hacc : Accepted o n t) (he : o.errors = .raise)
+theorem policy_raise (hacc : Accepted I o n t) (he : o.errors = .raise)
     (hb : (I.before o (seed I o t w.user) t).2 = false)
     (hv0 : I.allFinite (I.check (seed I o t w.user) t) = true)
     (s : Nat) (hs : Reaches I o t (I.before o (seed I o t w.user) t).1 (I.check (seed I o t w.user) t) s)
@@ -69,7 +69,7 @@ theorem policy_raise (hacc : Accepted o n t) (he : o.errors = .raise)
   simp [he, finish]
 
 /-- `errors='skip'`: status 'S', `iterations[t] = s`, no exception, result `False`. -/
-theorem policy_skip (hacc : Accepted o n t) (he : o.errors = .skip)
+theorem policy_skip (hacc : Accepted I o n t) (he : o.errors = .skip)
     (hb : (I.before o (seed I o t w.user) t).2 = false)
     (s : Nat) (hs : Reaches I o t (I.before o (seed I o t w.user) t).1 (I.check (seed I o t w.user) t) s)
     (hr : (I.eval o (traj I o t (I.before o (seed I o t w.user) t).1 (s - 1)) t s).2 = false)
@@ -91,7 +91,7 @@ theorem solve_moves_on (p : Nat) (rest ps : List Nat) (fs : List Bool) (w' : Wor
   simp [solveList, h]
 
 /-- An invalid `errors` argument meeting a newly non-finite value raises ValueError (no status is recorded). -/
-theorem policy_invalid (hacc : Accepted o n t) (he : o.errors = .invalid)
+theorem policy_invalid (hacc : Accepted I o n t) (he : o.errors = .invalid)
     (hb : (I.before o (seed I o t w.user) t).2 = false)
     (s : Nat) (hs : Reaches I o t (I.before o (seed I o t w.user) t).1 (I.check (seed I o t w.user) t) s)
     (hr : (I.eval o (traj I o t (I.before o (seed I o t w.user) t).1 (s - 1)) t s).2 = false)
@@ -109,7 +109,7 @@ theorem policy_invalid (hacc : Accepted o n t) (he : o.errors = .invalid)
 /-- `ignore` / `replace`: a newly non-finite value before `max_iter` does not stop the iteration (it is part of
     `Continues`), and the period ends '.' by the ordinary rule applied to *judged* passes only: pass `s` is
     accepted iff the held previous vector and the new vector are finite, `s ≥ min_iter`, and they are close. -/
-theorem policy_continue_solved (hacc : Accepted o n t)
+theorem policy_continue_solved (hacc : Accepted I o n t)
     (hpre : ¬ (o.errors = .raise ∧ I.allFinite (I.check (seed I o t w.user) t) = false))
     (hb : (I.before o (seed I o t w.user) t).2 = false)
     (s : Nat) (hs : Reaches I o t (I.before o (seed I o t w.user) t).1 (I.check (seed I o t w.user) t) s)
@@ -137,7 +137,7 @@ theorem policy_continue_solved (hacc : Accepted o n t)
 
 /-- `ignore` / `replace` (and every other mode): if all `max_iter` passes continue, the period ends 'F' with
     `iterations[t] = max_iter`; NonConvergenceError iff `failures='raise'`. -/
-theorem policy_continue_failed (hacc : Accepted o n t)
+theorem policy_continue_failed (hacc : Accepted I o n t)
     (hpre : ¬ (o.errors = .raise ∧ I.allFinite (I.check (seed I o t w.user) t) = false))
     (hb : (I.before o (seed I o t w.user) t).2 = false)
     (hall : ∀ i, 0 < i → i ≤ o.maxIter.toNat →
@@ -155,7 +155,7 @@ theorem policy_continue_failed (hacc : Accepted o n t)
   simp [loop, finish]
 
 /-- `ignore` / `replace` at the last allowed pass: a newly non-finite value there ends the period 'F'. -/
-theorem policy_continue_failed_at_max (hacc : Accepted o n t) (he : o.errors = .ignore ∨ o.errors = .replace)
+theorem policy_continue_failed_at_max (hacc : Accepted I o n t) (he : o.errors = .ignore ∨ o.errors = .replace)
     (hb : (I.before o (seed I o t w.user) t).2 = false)
     (s : Nat) (hs : Reaches I o t (I.before o (seed I o t w.user) t).1 (I.check (seed I o t w.user) t) s)
     (hmax : (s : Int) = o.maxIter)
@@ -183,7 +183,7 @@ theorem never_judged_from_nonfinite (fuel k : Nat) (u : σ) (prev : V)
 
 /-- An exception inside evaluation pass `s` surfaces as a chained SolutionError; under `errors='raise'` it also
     records 'E' and the pass number, otherwise status and iterations are left as they were. -/
-theorem eval_exception (hacc : Accepted o n t)
+theorem eval_exception (hacc : Accepted I o n t)
     (hpre : ¬ (o.errors = .raise ∧ I.allFinite (I.check (seed I o t w.user) t) = false))
     (hb : (I.before o (seed I o t w.user) t).2 = false)
     (s : Nat) (hs : Reaches I o t (I.before o (seed I o t w.user) t).1 (I.check (seed I o t w.user) t) s)
@@ -201,7 +201,7 @@ theorem eval_exception (hacc : Accepted o n t)
   simp [finish]
 
 /-- An exception in the pre-hook surfaces as a chained SolutionError; status and iterations do not change. -/
-theorem before_exception (hacc : Accepted o n t)
+theorem before_exception (hacc : Accepted I o n t)
     (hpre : ¬ (o.errors = .raise ∧ I.allFinite (I.check (seed I o t w.user) t) = false))
     (hb : (I.before o (seed I o t w.user) t).2 = true) :
     solveT I o n t w = (withUser w (I.before o (seed I o t w.user) t).1, .solutionError true) := by
@@ -212,7 +212,7 @@ theorem before_exception (hacc : Accepted o n t)
   simp only [hpre, if_false]
 
 /-- An exception in the post-hook surfaces as a chained SolutionError; status and iterations do not change. -/
-theorem after_exception (hacc : Accepted o n t)
+theorem after_exception (hacc : Accepted I o n t)
     (hpre : ¬ (o.errors = .raise ∧ I.allFinite (I.check (seed I o t w.user) t) = false))
     (hb : (I.before o (seed I o t w.user) t).2 = false)
     (s : Nat) (hs : Reaches I o t (I.before o (seed I o t w.user) t).1 (I.check (seed I o t w.user) t) s)
@@ -313,6 +313,8 @@ example : runStmts true
 
 /-- Non-vacuity for the policies: a model whose second pass yields a "non-finite" vector (modelled by 99). -/
 def exI : Interp Nat Nat where
+  lags := 0
+  leads := 0
   check u _ := u
   allFinite v := v != 99
   close a b := a == b
